@@ -82,7 +82,7 @@ CHECKS.update({
     'C12': dict(text='Bounded model checking of the real connection loop on pipelines of m requests from a menu of loud/quiet/unimplemented opcodes '
                      'with quit/quitq anywhere and symbolic segmentation: handle_request called exactly for the requests before the quit, once each, '
                      'in order; exactly one in-order response per loud request, at most one per quiet one; quit answered then shutdown; quitq silent '
-                     'shutdown; the task always returns; an oversized request inside the stream is skipped exactly under every segmentation.', design='5 C12', note=SOCK_NOTE + ' Fresh server; quick m=2 / menu 8, thorough m=3 / menu 12.'),
+                     'shutdown; the task always returns; an oversized request inside the stream is skipped exactly under every segmentation.', design='5 C12', note=SOCK_NOTE + ' Fresh server; quick m=2 / menu 8, thorough m=2 / menu 12 with both endings for every first request (3 requests did not finish within an hour: outside the bound).'),
     'C13': dict(text='Decoder: too large <=> body_length > limit for every valid header, header-only consumption; handler: 0x03 echo, nothing '
                      'changed; socket: read_frame + skip_bytes on [oversized frame][followers] with every read size symbolic return ItemTooLarge and '
                      'leave the next unread position at exactly 24 + body_length, without panic, within the read bound; client level: Client::handle on an '
